@@ -92,6 +92,12 @@ CHECKS.update({
         "The API file of every generated package is checked for internal consistency on its own, and its multiset of (kind, id) entries, the static / class-method / property flags and the superclass lists (four import forms, source order) are compared with the inventory derived from the generated source, private declarations included.",
         "§5 C12",
     ),
+    "C11": (
+        "E1 package engine",
+        "property-based testing: Hypothesis-drawn packages with cross-module class references; oracle = cross-file symbol resolution over the parsed stub set (independent recogniser)",
+        "Every named type, generic, superclass and type-parameter bound of every stub file must resolve to a built-in mapping, a declaration of the same file, an import of that file (or a declaration of the same Safe-DS package), and every import line must name a package and a declaration present in the generated stub set, placeholder stubs included.",
+        "§5 C11",
+    ),
 })
 
 NOT_YET = "check not built yet in this session (work in progress, see DESIGN.md §9)"
